@@ -1194,6 +1194,12 @@ def errorEpilogue (vm : Vm) : Vm :=
 (since the `fix:` commit 2088ed3) its slot is popped; returns the address of the result object -/
 def haltEpilogue (vm : Vm) : Vm := if vm.running == 0 then { vm with sp := vm.sp - 1 } else vm
 
+/-- what `nev_execute` does after a call on an ALREADY initialised machine that did not end in VM_HALT (unhandled exception,
+failed assert): the machine's stack pointer is put back to where the call found it (since the `fix:` commit dd988fe; the
+pinned code left one slot per failed call: the callee's RETHROW returns into the stub like RET, with a result slot) -/
+def failEpilogue (wasInitialized : Bool) (sp0 : Int) (vm : Vm) : Vm :=
+  if wasInitialized && vm.running != 0 then { vm with sp := sp0 } else vm
+
 /-- `nev_execute` entry logic: first call starts at 0, later ones at the entry stub -/
 def beginExecute (md : Module) (vm : Vm) : Vm :=
   if vm.initialized then { vm with ip := md.codeEntry, running := 1 }
